@@ -258,4 +258,81 @@ theorem slice_bytes_wrap (s : Seq) (a b : Int) (hb : 0 ≤ b) (hba : b < a) (haL
     congr 2
     omega
 
+/-- the rotated record has the same length -/
+theorem rotate_len (s : Seq) (n : Int) (hL : 0 < s.len) : (s.rotate n).len = s.len := by
+  have h := C04.rotate_bytes_eq s n
+  unfold Seq.len at *
+  rw [h]
+  have hr : 0 ≤ C04.rotN n ↑s.bytes.length := by
+    rw [C04.rotN_eq_emod n _ hL]; exact Int.emod_nonneg _ (by omega)
+  have hr2 : C04.rotN n ↑s.bytes.length < ↑s.bytes.length := by
+    rw [C04.rotN_eq_emod n _ hL]; exact Int.emod_lt_of_pos _ hL
+  simp only [List.length_append, List.length_drop, List.length_take]
+  omega
+
+/-- **Slice (wrap-around window), record level**: with `0 ≤ b < a ≤ L` the window is
+`[a, L) ++ [0, b)`.  A feature whose rotated location `l'` (rotation by `-a`, C04) overlaps
+`[0, L-a+b)` survives with unchanged key and qualifiers and denotes exactly its former residues
+inside the window, in window coordinates: first the rotation re-maps `x ↦ (x - a) mod L`, then the
+forward window `[0, L-a+b)` is cut.  Guards: the domain and K2 guards of the two steps. -/
+theorem slice_wrap_feature_partial (s : Seq) (a b : Int) (hb : 0 ≤ b) (hba : b < a) (haL : a ≤ s.len)
+    (f : Feature) (hf : f ∈ s.feats)
+    (hw : wf f.loc = true) (hnn : nonneg f.loc = true)
+    (hok : normOk s.len (expand f.loc 0 (C04.rotN (-a) s.len)) = true)
+    (h1 : expandAbs f.loc 0 (C04.rotN (-a) s.len) = false)
+    (h2 : normalizeAbs (expand f.loc 0 (C04.rotN (-a) s.len)) s.len = false)
+    (hov : ((f.loc.expand 0 (C04.rotN (-a) s.len)).normalize s.len).overlap 0 (s.len - a + b) = true)
+    (g1 : expandAbs ((f.loc.expand 0 (C04.rotN (-a) s.len)).normalize s.len)
+            (s.len - a + b) (s.len - a + b - s.len) = false)
+    (g2 : expandAbs (((f.loc.expand 0 (C04.rotN (-a) s.len)).normalize s.len).expand
+            (s.len - a + b) (s.len - a + b - s.len)) 0 (-0) = false) :
+    ∃ f' ∈ (s.slice a b).feats, f'.key = f.key ∧ f'.props = f.props ∧
+      den f'.loc ≼ filterMapPos (winMap 0 (s.len - a + b)) (mapPos (rotMap (-a) s.len) (den f.loc)) := by
+  have hL : 0 < s.len := by omega
+  obtain ⟨fr, hfr, hk, hp, hden⟩ := C04.rotate_feature_partial s (-a) hL f hf hw hnn hok h1 h2
+  -- the rotated feature is literally the re-located one
+  have hm : ({ f with loc := (f.loc.expand 0 (C04.rotN (-a) s.len)).normalize s.len } : Feature)
+      ∈ (s.rotate (-a)).feats := mem_of_perm_map (C04.rotate_table_perm s (-a)) hf
+  have hr : 0 ≤ C04.rotN (-a) s.len := by
+    rw [C04.rotN_eq_emod _ _ hL]; exact Int.emod_nonneg _ (by omega)
+  have hwf' : wf ((f.loc.expand 0 (C04.rotN (-a) s.len)).normalize s.len) = true :=
+    (normalize_mod _ s.len hL ((expand_ins f.loc 0 _ hw hr).2) hok).2
+  have hd' := C04.rotate_den_partial f.loc (C04.rotN (-a) s.len) s.len hL hr hw hnn hok h1 h2
+  have e : mapPos (rotMap (C04.rotN (-a) s.len) s.len) (den f.loc) = mapPos (rotMap (-a) s.len) (den f.loc) := by
+    rw [C04.rotN_eq_emod _ _ hL, C04.rotMap_emod]
+  rw [e] at hd'
+  have hpos : ∀ p ∈ den ((f.loc.expand 0 (C04.rotN (-a) s.len)).normalize s.len),
+      0 ≤ p.1 ∧ p.1 < (s.rotate (-a)).len := by
+    intro p hp'
+    have := hd'.1.subset hp'
+    simp only [mapPos, List.mem_map] at this
+    obtain ⟨q, _, rfl⟩ := this
+    rw [rotate_len s (-a) hL]
+    exact ⟨Int.emod_nonneg _ (by omega), Int.emod_lt_of_pos _ hL⟩
+  rw [slice_wrap_eq s a b (by omega) hb hba]
+  have hlen := rotate_len s (-a) hL
+  have key := slice_fwd_feature_partial (s.rotate (-a)) 0 (s.len - a + b) (by omega) (by omega)
+    (by rw [hlen]; omega) _ hm hov hwf' hpos (by rw [hlen]; exact g1) (by rw [hlen]; exact g2)
+  obtain ⟨f', hf', k1, k2, k3⟩ := key
+  refine ⟨f', ?_, k1, k2, ?_⟩
+  · -- `slice` on a forward window `[0, W)` is `sliceFwd`
+    have : (s.rotate (-a)).slice 0 (s.len - a + b) = Seq.sliceFwd (s.rotate (-a)) 0 (s.len - a + b) := by
+      unfold Seq.slice
+      simp only [show ¬ (0:Int) < 0 by omega, show ¬ (s.len - a + b) < 0 by omega, if_false]
+    rw [← this]; exact hf'
+  · exact k3.trans (filterMapPos_refines _ hd')
+
+/-- non-vacuity of `slice_wrap_feature_partial`: a gene `3..9` on a 10-residue record, window
+`Slice(seq, 8, 4)` — the feature crosses the new origin after the rotation and is cut by the window -/
+example :
+    let s : Seq := ⟨[⟨"gene", ranged 2 9 false false, []⟩], [97, 99, 103, 116, 97, 99, 103, 116, 97, 99]⟩
+    let l := ranged 2 9 false false
+    wf l = true ∧ nonneg l = true ∧ normOk s.len (expand l 0 (C04.rotN (-8) s.len)) = true ∧
+    expandAbs l 0 (C04.rotN (-8) s.len) = false ∧
+    normalizeAbs (expand l 0 (C04.rotN (-8) s.len)) s.len = false ∧
+    ((l.expand 0 (C04.rotN (-8) s.len)).normalize s.len).overlap 0 (s.len - 8 + 4) = true ∧
+    expandAbs ((l.expand 0 (C04.rotN (-8) s.len)).normalize s.len) (s.len - 8 + 4) (s.len - 8 + 4 - s.len) = false ∧
+    expandAbs (((l.expand 0 (C04.rotN (-8) s.len)).normalize s.len).expand (s.len - 8 + 4) (s.len - 8 + 4 - s.len)) 0 (-0) = false := by
+  decide
+
 end Gts.C03
